@@ -12,7 +12,7 @@ From DV Require Import Model.Base Model.NameCheck Model.Parser Model.Header Mode
   Model.Compress Model.Renamer Spec.NameSpec Spec.PacketSpec Spec.RecordSpec Spec.PlainSpec Proofs.ListLemmas Proofs.Hoare
   Proofs.NameCheckTotal Proofs.ParserTotal Proofs.NameIff Proofs.ParserInv Proofs.ParseSound Proofs.ReadersAgree
   Proofs.ReadersLabels Proofs.QuestionSpec Proofs.WalkValues Proofs.SetTtl Proofs.WalkSkip Proofs.UncompressFrame
-  Proofs.UncompressSpec Proofs.PlainWf Proofs.RenameSpec Proofs.CompressName Proofs.CompressSize Proofs.CompressContent.
+  Proofs.UncompressSpec Proofs.PlainWf Proofs.RenameSpec Proofs.CompressName Proofs.CompressSize Proofs.CompressContent Proofs.EdnsFacts Proofs.EdnsPlain Proofs.ViewAfter.
 From Coq Require Import ZifyBool ZifyNat ZifyN.
 
 Lemma F2_length {T U} (P : T -> U -> Prop) : forall a b, Forall2 P a b -> length a = length b.
@@ -554,4 +554,70 @@ Proof.
   destruct (parse r) as [f| |] eqn:Ef; try discriminate.
   destruct (negb (edns_summary_same v f)); [discriminate|]. injection H as <-. cbn [fst snd]. split; [reflexivity|].
   exact (rename_same_message p v sl tl sfx r f Hb Hp Hsl Htl Hsl0 Htl0 Htb Hls Hlt Er Ef).
+Qed.
+
+(** ** After a successful whole-packet rename of a freshly parsed packet, the object is exactly what the parser returns for its
+    bytes: every field, the advertised payload size included (the OPT record is carried over: same class).  It is therefore
+    again an object of the kind every theorem about parsed packets starts from. *)
+Lemma find_opt_rel {T} (R : T -> T -> Prop) (key : T -> rec_view) : forall l1 l2, Forall2 R l1 l2 ->
+  (forall a b, R a b -> is_opt (key a) = is_opt (key b) /\ rv_class (key a) = rv_class (key b)) ->
+  match find is_opt (map key l1), find is_opt (map key l2) with
+  | Some a, Some b => rv_class a = rv_class b
+  | None, None => True
+  | _, _ => False
+  end.
+Proof.
+  induction 1 as [|a b l1 l2 Hab _ IH]; intros HR; cbn [map find]; [exact I|].
+  destruct (HR a b Hab) as [Ho Hc]. rewrite <- Ho. destruct (is_opt (key a)); [exact Hc|exact (IH HR)].
+Qed.
+
+Theorem rename_fresh_is_parsed : forall p v it sl tl sfx s', bytes_ok p -> parse p = Ok v ->
+  Forall lab sl -> Forall lab tl -> sl <> [] -> tl <> [] -> bytes_ok (wire_of_labels tl) ->
+  length (wire_of_labels sl) <= 255 -> length (wire_of_labels tl) <= 255 ->
+  m_rename (wire_of_labels tl) (wire_of_labels sl) sfx (v, it) = (s', Ok tt) ->
+  bytes_ok (pp_packet (fst s')) /\ parse (pp_packet (fst s')) = Ok (fst s').
+Proof.
+  intros p v it sl tl sfx s' Hb Hp Hsl Htl Hsl0 Htl0 Htb Hls Hlt H.
+  unfold m_rename, cbind, getv, clift, putv in H. cbn [fst snd] in H.
+  destruct (renamer_rename v (wire_of_labels tl) (wire_of_labels sl) sfx) as [r| |] eqn:Er; try discriminate.
+  destruct (parse r) as [f| |] eqn:Ef; try discriminate.
+  destruct (edns_summary_same v f) eqn:Es; [|discriminate]. cbn [negb] in H. injection H as <-. cbn [fst snd pp_update pp_packet].
+  destruct (rename_content p v sl tl sfx Hb Hp Hsl Htl Hsl0 Htl0 Htb Hls Hlt) as (qls0 & qt0 & a0 & n0 & r0 & qe0 & _ & _ & Hres).
+  rewrite Er in Hres. destruct Hres as [[Hc _]|(out0 & _ & _ & _ & Hc0 & Hbo & _)]; [discriminate|]. injection Hc0 as <-.
+  split; [exact Hbo|].
+  destruct (rename_same_message p v sl tl sfx r f Hb Hp Hsl Htl Hsl0 Htl0 Htb Hls Hlt Er Ef)
+    as (qls & qt & lxa & lxn & lxr & qls' & L' & lxa' & lxn' & lxr' & R & _ & HF & R' & HC & La & Ln & Lr).
+  destruct (parse_shape r f Hbo Ef) as (sq & san & sns & sar & an & ns & ar & F).
+  destruct (summary_same_eq v f Es) as (E1 & E2 & E3 & E4).
+  (* the advertised payload size *)
+  assert (Emp : pp_max_payload v = pp_max_payload f).
+  { destruct (parse_summary p v Hb Hp) as (an1 & ns1 & ar1 & qe1 & e11 & e21 & la1 & ln1 & lr1 & _ & (ql1 & Hq1) & Ha1 & Hn1 & Hr1 & Ra1 & Lla1 & Rn1 & Lln1 & Rr1 & Llr1 & S1).
+    destruct (parse_summary r f Hbo Ef) as (an2 & ns2 & ar2 & qe2 & e12 & e22 & la2 & ln2 & lr2 & _ & (ql2 & Hq2) & Ha2 & Hn2 & Hr2 & Ra2 & Lla2 & Rn2 & Lln2 & Rr2 & Llr2 & S2).
+    destruct R as [(qe & e1 & e2 & Hcn & _ & _ & _ & Ra & Rn & Rr) _ Han Hns Har].
+    destruct R' as [(qe' & e1' & e2' & Hcn' & _ & _ & _ & Ra' & Rn' & Rr') _ Han' Hns' Har'].
+    destruct (cname_l_fun _ _ _ _ _ _ Hcn Hq1) as [_ <-]. destruct (cname_l_fun _ _ _ _ _ _ Hcn' Hq2) as [_ <-].
+    rewrite Ha1 in Han. rewrite Hn1 in Hns. rewrite Hr1 in Har. rewrite Ha2 in Han'. rewrite Hn2 in Hns'. rewrite Hr2 in Har'.
+    injection Han as ->. injection Hns as ->. injection Har as ->. injection Han' as ->. injection Hns' as ->. injection Har' as ->.
+    rewrite Nat2N.id in *.
+    destruct (records_at_fun p _ _ _ Ra1 _ _ Ra ltac:(rewrite map_length; lia)) as [Xa Ya]. subst la1 e11.
+    destruct (records_at_fun p _ _ _ Rn1 _ _ Rn ltac:(rewrite map_length; lia)) as [Xn Yn]. subst ln1 e21.
+    destruct (records_at_fun p _ _ _ Rr1 _ _ Rr ltac:(rewrite map_length; lia)) as [Xr _]. subst lr1.
+    destruct (records_at_fun r _ _ _ Ra2 _ _ Ra' ltac:(rewrite map_length; lia)) as [Xa' Ya']. subst la2 e12.
+    destruct (records_at_fun r _ _ _ Rn2 _ _ Rn' ltac:(rewrite map_length; lia)) as [Xn' Yn']. subst ln2 e22.
+    destruct (records_at_fun r _ _ _ Rr2 _ _ Rr' ltac:(rewrite map_length; lia)) as [Xr' _]. subst lr2.
+    rewrite <- !map_app in S1, S2.
+    pose proof (find_opt_rel (ren_rec sl tl sfx) fst _ _ HF
+                  ltac:(intros [ra xa] [rb xb] [(ls' & _ & E) _]; cbn [fst snd] in *; subst rb; split; reflexivity)) as P1.
+    pose proof (find_opt_rel ci_rec fst _ _ HC
+                  ltac:(intros [ra xa] [rb xb] (_ & Et & Ec & _); cbn [fst snd] in *; unfold is_opt; rewrite Et, Ec; split; reflexivity)) as P2.
+    unfold summary_of in S1, S2.
+    destruct (find is_opt (map fst (lxa ++ lxn ++ lxr))) as [o1|]; destruct (find is_opt (map fst L')) as [o2|]; try contradiction;
+      destruct (find is_opt (map fst (lxa' ++ lxn' ++ lxr'))) as [o3|]; try contradiction.
+    - destruct S1 as (_ & _ & -> & _). destruct S2 as (_ & _ & -> & _). congruence.
+    - destruct S1 as (_ & _ & _ & _ & _ & ->). destruct S2 as (_ & _ & _ & _ & _ & ->). reflexivity. }
+  destruct f as [fp foq foan fons foar foed fec frc fver fxf fmc fmp fca].
+  pose proof (pf_packet _ _ _ _ _ _ _ _ _ F) as Epk. pose proof (pf_mc _ _ _ _ _ _ _ _ _ F) as Emc. pose proof (pf_cached _ _ _ _ _ _ _ _ _ F) as Eca.
+  cbn [pp_packet pp_maybe_compressed pp_cached pp_edns_count pp_ext_rcode pp_edns_version pp_ext_flags pp_max_payload
+       pp_offset_question pp_offset_answers pp_offset_nameservers pp_offset_additional pp_offset_edns] in *.
+  subst. exact Ef.
 Qed.
